@@ -299,12 +299,13 @@ def m_stage_all(index, wd):
 
 
 def m_unstage(index, head, p):
-    """git restore --staged -- p   (p a file path)."""
-    new = dict(index)
-    if p in head:
-        _put(new, p, head[p])
-    else:
-        new.pop(p, None)
+    """git restore --staged -- p : everything the index has at or below p goes, everything HEAD has at
+    or below p comes back (and displaces a file staged where one of its leading directories must be)."""
+    pre = p + b"/"
+    new = {q: v for q, v in index.items() if q != p and not q.startswith(pre)}
+    for q, v in head.items():
+        if q == p or q.startswith(pre):
+            _put(new, q, v)
     return new
 
 
